@@ -138,7 +138,10 @@ def run(chk, repo):
            f"the selection among the pooled cursors reads the last staged edge at {reads}: which ORF / start-gain variants are propagated to the node then "
            "depends on the visiting order of its in-edges, so downstream peptides can be labelled with the wrong frameshift / start-gain variants",
            key=sq + '::order-independent', fn=sf.qual)
-
+    from rules.C09 import w2f_label
+    chk.rule('C03.h', '(shared with C09.b) W2F ids named in a header are exactly those of the substituted combination', 1)
+    chk.clauses.append('C03.h the W2F identifiers appended to a label are those of the combination applied to the sequence (not of every candidate position)')
+    w2f_label(chk, repo, 'C03.h')
 
 def sec_variant_filter(chk, repo, rid):
     """Sec-truncated peptides keep every variant ending at or before the Sec codon start (shared with C01.e)."""
